@@ -1,8 +1,7 @@
 //! C02 Chunk-boundary invariance (metamorphic: every schedule vs the single-write run).
 use crate::engine::*;
 use crate::gens::handlers::{mutators, observers};
-use crate::gens::input::{InputOpts, cut_is_interesting, input};
-use crate::gens::sched::random_cuts;
+use crate::gens::input::{InputOpts, cut_is_interesting, input_in};
 use crate::gens::soup::has_markup;
 use crate::obs::*;
 use crate::tape::{Tape, fnv};
@@ -22,7 +21,7 @@ pub struct Case {
 
 pub fn decode(tape: &[u16]) -> Case {
     let mut t = Tape::new(tape);
-    let (input, enc) = input(&mut t, &InputOpts { max_frags: 14, ..Default::default() });
+    let enc = crate::gens::input::pick_encoding(&mut t, true);
     let mut cfg = Cfg { encoding: enc, ..Cfg::default() };
     cfg.strict = t.chance(1, 3);
     cfg.prealloc = *t.pick(&[0usize, 0, 1, 64, 1024]);
@@ -36,8 +35,9 @@ pub fn decode(tape: &[u16]) -> Case {
             mutators(&mut t, &mut cfg);
         }
     }
-    let nr = 4;
-    let random = (0..nr).map(|_| random_cuts(&mut t, input.len(), 6)).collect();
+    let specs: Vec<Vec<u16>> = (0..4).map(|_| { let k = t.range(0, 6); (0..k).map(|_| t.frac()).collect() }).collect();
+    let input = input_in(&mut t, &InputOpts { max_frags: 14, ..Default::default() }, enc);
+    let random = specs.iter().map(|f| { let mut v: Vec<usize> = f.iter().map(|x| crate::tape::frac_to_pos(*x, input.len())).collect(); v.sort(); v }).collect();
     Case { input, cfg, random }
 }
 
@@ -158,6 +158,30 @@ pub fn check_case(c: &Case, st: &mut Stats) -> PResult {
 impl Prop for C02 {
     fn id(&self) -> &'static str {
         "C02"
+    }
+    fn fixed_cases(&self) -> Vec<FixedCase> {
+        vec![
+            FixedCase {
+                name: "valueless-attr-loc",
+                finding: Some("C14-valueless-attr-loc"),
+                what: "value-less attribute source locations must not depend on the write schedule",
+                run: Box::new(|st| {
+                    let mut cfg = Cfg::default();
+                    cfg.sels.push(SelSpec { sel: "*".into(), el: true, ..Default::default() });
+                    check_case(&Case { input: b"aa<a b=c d e='f' g=\"h\" B=2>".to_vec(), cfg, random: vec![] }, st)
+                }),
+            },
+            FixedCase {
+                name: "script-missing-attr-value-panic",
+                finding: Some("C03-missing-attr-value-data-state"),
+                what: "'<script a= >' followed by markup must not trip an internal assertion",
+                run: Box::new(|st| {
+                    let mut cfg = Cfg::default();
+                    cfg.sels.push(SelSpec { sel: "div".into(), ops: vec![ScriptOp { kind: Kind::Element, nth: Some(0), every_chunk: false, op: Op::Before("X".into(), CT::Html) }], ..Default::default() });
+                    check_case(&Case { input: b"aa<script a= >a<svg></svg>a".to_vec(), cfg, random: vec![] }, st)
+                }),
+            },
+        ]
     }
     fn rule(&self) -> String {
         "case = (input, encoding, observer or mutating handler set); executed under the single-write schedule and EVERY 1-cut (len<=120), every 2-cut (len<=24), byte-wise, 4 random k-cut schedules with empty writes, and rewrite_str; oracle: same result kind, same sink bytes, same normalised event log incl. source ranges and text-chunk protocol. non-trivial = input has markup and some cut lies inside a <...> construct or multi-byte char; distinct by hash(input,cfg); evaluations counts rewriter runs".into()
